@@ -90,11 +90,20 @@ static int run_random(uint64_t seed, long n) {
         tr.iv.resize((size_t)frames * tr.comps);
         // value classes: moderate, hugging INT32_MAX, hugging INT32_MIN, the whole int32 range, constant
         if (manyd && t == 0) {
+          // 7 components change in every frame by a difference nobody else uses (values wrapped into [0, 2^17)), 9 components are constant: more than
+          // 65536 distinct residual symbols AND a dominant symbol, so that one big table (raw scheme) beats tagging every value with its bit length
           std::vector<int32_t> cur(tr.comps, 0);
+          uint32_t kk = 0;
+          const int32_t R = 1 << 17;
           for (int k = 0; k < frames; ++k) for (int c = 0; c < tr.comps; ++c) {
-            const long idx = (long)k * tr.comps + c;
-            cur[c] += (int32_t)((idx * 40503L) % 70001L) - 35000;
-            tr.iv[(size_t)idx] = cur[c];
+            int32_t v;
+            if (c < 7) {
+              const uint32_t sy = 1 + (uint32_t)(((uint64_t)kk++ * 48271u) % 131071u);     // 131071 is prime: distinct values of [1, 131071]
+              const int32_t dlt = (sy & 1) ? -(int32_t)(sy >> 1) - 1 : (int32_t)(sy >> 1);
+              v = ((cur[c] + dlt) % R + R) % R;
+            } else v = c == 7 ? 0 : c == 8 ? R - 1 : 5;
+            cur[c] = v;
+            tr.iv[(size_t)k * tr.comps + c] = v;
           }
           tr.id = anim.AddKeyframes(DT_INT32, tr.comps, tr.iv);
           tracks.push_back(tr);
